@@ -1,10 +1,9 @@
 CONSTANTS
-  AVals = {0, 10}
-  Feats = {1, 2, 3, 4}
-  Levels = {1, 2}
+  AVals = {0, 5, 10}
+  Feats = {1, 2, 3}
+  Levels = {1, 2, 3}
   NBests = {1, 2, 3}
 SPECIFICATION Spec
 INVARIANT Inv_C14
 INVARIANT Inv_C15_Top
-PROPERTY Termination
 CHECK_DEADLOCK FALSE
